@@ -45,24 +45,26 @@ theorem decode_struct_obj' (E : Ext) (env : Env) (strict : Bool) (fl : Flags) (c
 /-! ### the members -/
 
 /-- the simulation of the members of one object, for every pair of member tables -/
-def MembersIH (E : Ext) (ρ : Rho) (A B : Env) (sB : Bool) (kvs : List (String × JVal)) : Prop :=
+def MembersIH (E : Ext) (ρ : Rho) (A B : Env) (sA sB : Bool) (kvs : List (String × JVal)) : Prop :=
   ∀ (tblA tblB : List (String × PTy)) (k : String) (ftA ftB : PTy),
+    (sA = true → knownMembers A tblA kvs = true) →
     tblA.find? (·.1 == k) = some (k, ftA) → tblB.find? (·.1 == k) = some (k, ftB) →
     tySub ρ ftA ftB = true → tyWF A ftA = true →
-    ChildRel ρ A (decodeMembers E A [] false tblA kvs) (decodeMembers E B [] sB tblB kvs) k ftA
+    ChildRel ρ A (decodeMembers E A [] sA tblA kvs) (decodeMembers E B [] sB tblB kvs) k ftA
 
 /-- members of a related pair of struct tables -/
-theorem children_struct {E : Ext} {ρ : Rho} {A B : Env} (cx : Ctx ρ A B) {a b : String} {sB : Bool}
-    {kvs : List (String × JVal)} (hIH : MembersIH E ρ A B sB kvs)
+theorem children_struct {E : Ext} {ρ : Rho} {A B : Env} (cx : Ctx ρ A B) {a b : String} {sA sB : Bool}
+    {kvs : List (String × JVal)} (hIH : MembersIH E ρ A B sA sB kvs)
+    (hk : sA = true → knownMembers A (structTable A a) kvs = true)
     (hcommon : ∀ f ∈ publicFields A a, ∃ g ∈ publicFields B b, fieldSub ρ f g = true) :
-    ∀ f ∈ publicFields A a, ChildRel ρ A (decodeMembers E A [] false (structTable A a) kvs)
+    ∀ f ∈ publicFields A a, ChildRel ρ A (decodeMembers E A [] sA (structTable A a) kvs)
       (decodeMembers E B [] sB (structTable B b) kvs) f.name f.ty := by
   intro f hf
   obtain ⟨g, hg, hsub⟩ := hcommon f hf
   have h1 := structTable_find cx.wfA hf
   have h2 := structTable_find cx.wfB hg
   rw [← fieldSub_name hsub] at h2
-  exact hIH _ _ f.name f.ty g.ty h1 h2 (fieldSub_parts hsub).1 (publicFields_tyWF cx.wfA hf)
+  exact hIH _ _ f.name f.ty g.ty hk h1 h2 (fieldSub_parts hsub).1 (publicFields_tyWF cx.wfA hf)
 
 /-! ### structs -/
 
@@ -71,17 +73,23 @@ theorem view_struct_struct (ρ : Rho) (A : Env) (fl : Flags) (cls c : String) (s
       .struct cls (orderSlots (publicFields A cls) (viewSlots ρ A (publicFields A cls) slots)) := by
   unfold view; rfl
 
+theorem knownDoc_struct_obj (A : Env) (fl : Flags) (c : String) (kvs : List (String × JVal)) :
+    knownDoc A (.struct fl c) (.obj kvs) = knownMembers A (structTable A c) kvs := by
+  unfold knownDoc; rfl
+
 theorem decode_struct_sub (E : Ext) {ρ : Rho} {A B : Env} (cx : Ctx ρ A B) {f g : Flags} {c c' : String}
-    (hr : ρ.rel c c' = true) {sa : StructDef} (hsa : A.struct? c = some sa) (kvs : List (String × JVal)) (sB : Bool)
-    (w : PyVal) (hIH : MembersIH E ρ A B sB kvs)
+    (hr : ρ.rel c c' = true) {sa : StructDef} (hsa : A.struct? c = some sa) (kvs : List (String × JVal)) (sA sB : Bool)
+    (w : PyVal) (hIH : MembersIH E ρ A B sA sB kvs)
+    (hk : sA = true → knownDoc A (.struct f c) (.obj kvs) = true)
     (h : decode E B [] sB (.struct g c') (.obj kvs) = .ok w) :
-    decode E A [] false (.struct f c) (.obj kvs) = .ok (view ρ A (.struct f c) w) := by
+    decode E A [] sA (.struct f c) (.obj kvs) = .ok (view ρ A (.struct f c) w) := by
   obtain ⟨sb, hsb⟩ := struct_related cx hr hsa
   have hrel := fieldsRel_public cx.compat cx.wfA cx.wfB hr hsa
+  rw [knownDoc_struct_obj] at hk
   rw [decode_struct_obj', memberTable_struct' B sB g c' sb kvs hsb] at h
-  rw [decode_struct_obj', memberTable_struct' A false f c sa kvs hsa]
+  rw [decode_struct_obj', memberTable_struct' A sA f c sa kvs hsa]
   obtain ⟨slotsB, hw, hA⟩ := finishStruct_sub E cx hsa hsb hrel.common kvs
-    (children_struct cx hIH hrel.common) sB w h
+    (children_struct cx hIH hk hrel.common) sA sB w hk h
   rw [hA, hw, view_struct_struct]
 
 /-! ### enumerated subtypes -/
@@ -226,11 +234,22 @@ theorem treeClassA_fresh {ρ : Rho} {A B : Env} (cx : Ctx ρ A B) {root rootB ta
           exact this ht''.symm
       simp [h1, this]
 
+theorem knownDoc_tree_obj (A : Env) (fl : Flags) (c : String) (kvs : List (String × JVal)) {tag : String} {s : StructDef}
+    (ht : jsonLookup ".tag" kvs = some (.str tag)) (hs : A.struct? c = some s) :
+    knownDoc A (.tree fl c) (.obj kvs) =
+      match findSub [tag] (s.subtypes.getD []) with
+      | some (_, sc, false) => knownMembers A (structTable A sc) kvs
+      | _ => false := by
+  unfold knownDoc
+  simp only [isVoidT, Bool.false_eq_true, if_false, ht, hs]
+  rfl
+
 theorem decode_tree_sub (E : Ext) {ρ : Rho} {A B : Env} (cx : Ctx ρ A B) {f g : Flags} {c c' : String}
     (hr : ρ.rel c c' = true) {sa : StructDef} (hsa : A.struct? c = some sa) (hta : sa.subtypes.isSome = true)
-    (kvs : List (String × JVal)) (sB : Bool) (w : PyVal) (hIH : MembersIH E ρ A B sB kvs)
+    (kvs : List (String × JVal)) (sA sB : Bool) (w : PyVal) (hIH : MembersIH E ρ A B sA sB kvs)
+    (hk : sA = true → knownDoc A (.tree f c) (.obj kvs) = true)
     (h : decode E B [] sB (.tree g c') (.obj kvs) = .ok w) :
-    decode E A [] false (.tree f c) (.obj kvs) = .ok (view ρ A (.tree f c) w) := by
+    decode E A [] sA (.tree f c) (.obj kvs) = .ok (view ρ A (.tree f c) w) := by
   obtain ⟨sb, hsb⟩ := struct_related cx hr hsa
   obtain ⟨_, hsubs⟩ := subsRel (compat_struct cx.compat hr hsa) hsa hsb hta
   have hρ := compatEnv_wf cx.compat
@@ -240,7 +259,8 @@ theorem decode_tree_sub (E : Ext) {ρ : Rho} {A B : Env} (cx : Ctx ρ A B) {f g 
     cases tv with
     | str tag =>
       rw [decode_tree_obj E B sB g c' kvs ht hsb] at h
-      rw [decode_tree_obj E A false f c kvs ht hsa]
+      rw [decode_tree_obj E A sA f c kvs ht hsa]
+      rw [knownDoc_tree_obj A f c kvs ht hsa] at hk
       cases hfB : findSub [tag] (sb.subtypes.getD []) with
       | some eB =>
         obtain ⟨tagsB, scB, trB⟩ := eB
@@ -269,11 +289,17 @@ theorem decode_tree_sub (E : Ext) {ρ : Rho} {A B : Env} (cx : Ctx ρ A B) {f g 
             obtain ⟨_, dA, hdA⟩ := structSubclass_entry cx.wfA hsa hmA
             simp only at hdA
             have hrel := fieldsRel_public cx.compat cx.wfA cx.wfB hr' hdA
+            simp only [hfA] at hk
             obtain ⟨slotsB, hw, hA⟩ := finishStruct_sub E cx hdA hdB hrel.common kvs
-              (children_struct cx hIH hrel.common) sB w h
+              (children_struct cx hIH hk hrel.common) sA sB w hk h
             simp only [Bool.false_eq_true, if_false, hA, hw, view_tree_struct,
               treeClassA_leaf hρ cx.wfA hsa hmA hr']
           | none =>
+            have hsA : sA = false := by
+              cases sA with
+              | false => rfl
+              | true => have := hk rfl; simp [hfA] at this
+            subst hsA
             have hca : sa.catchAll = true := by
               rcases hsubs.fresh with h1 | h1
               · exact h1
@@ -287,7 +313,7 @@ theorem decode_tree_sub (E : Ext) {ρ : Rho} {A B : Env} (cx : Ctx ρ A B) {f g 
               obtain ⟨g', hg', hs'⟩ := publicFields_prefixU cx.wfuB hsubB g0 hg0
               exact ⟨g', hg', fieldSub_trans_same hs0 hs'⟩
             obtain ⟨slotsB, hw, hA⟩ := finishStruct_sub E cx hsa hdB hcommon kvs
-              (children_struct cx hIH hcommon) sB w h
+              (children_struct cx hIH (fun h => by cases h) hcommon) false sB w (fun h => by cases h) h
             simp only [Bool.false_eq_true, if_false, hca, if_true, hA, hw, view_tree_struct,
               treeClassA_fresh cx hsa hsb hsubs hmB hfA]
       | none =>
@@ -308,8 +334,13 @@ theorem decode_tree_sub (E : Ext) {ρ : Rho} {A B : Env} (cx : Ctx ρ A B) {f g 
                 rw [htA, hfB] at hf'
                 cases hf'
             have hrel := fieldsRel_public cx.compat cx.wfA cx.wfB hr hsa
+            have hsA : sA = false := by
+              cases sA with
+              | false => rfl
+              | true => have := hk rfl; simp [hfA] at this
+            subst hsA
             obtain ⟨slotsB, hw, hA⟩ := finishStruct_sub E cx hsa hsb hrel.common kvs
-              (children_struct cx hIH hrel.common) false w h
+              (children_struct cx hIH (fun h => by cases h) hrel.common) false false w (fun h => by cases h) h
             simp only [hfA, Bool.false_eq_true, if_false, hsubs.catchAll, hcb, if_true, hA, hw, view_tree_struct,
               treeClassA_root hρ A hr]
           · simp [hcb, verr] at h
